@@ -256,7 +256,7 @@ var sessionKeys = []string{
 	authboss.SessionKey, authboss.SessionHalfAuthKey, authboss.SessionLastAction, authboss.Session2FA,
 	authboss.Session2FAAuthToken, authboss.Session2FAAuthed, authboss.SessionOAuth2State, authboss.SessionOAuth2Params,
 	totp2fa.SessionTOTPSecret, totp2fa.SessionTOTPPendingPID,
-	sms2fa.SessionSMSNumber, sms2fa.SessionSMSSecret, sms2fa.SessionSMSLast, sms2fa.SessionSMSPendingPID,
+	sms2fa.SessionSMSNumber, sms2fa.SessionSMSSecret, sms2fa.SessionSMSLast, sms2fa.SessionSMSPendingPID, sms2fa.SessionSMSSentTo,
 	authboss.FlashSuccessKey, authboss.FlashErrorKey,
 }
 
@@ -289,8 +289,10 @@ func (f *flow) symbolicSession() {
 	verif.Assume(verif.Implies(S.Has(authboss.Session2FAAuthToken), f.sval(authboss.Session2FAAuthToken) != "")) // A7
 	verif.Assume(verif.Implies(S.Has(sms2fa.SessionSMSNumber), f.sval(sms2fa.SessionSMSNumber) != ""))   // A2: only PostSetup writes it, never empty
 	verif.Assume(verif.Implies(S.Has(totp2fa.SessionTOTPSecret), f.sval(totp2fa.SessionTOTPSecret) != "")) // A2: a generated key
-	// A6: a present sms_secret was texted to some number (ghost)
+	// A6: a present sms_secret was texted to some number (ghost), and the session records that
+	// number next to it (SendCodeToUser writes both; checked as preserved by C13_AllRoutes)
 	f.smsSentTo = verif.String("ghost_smsSentTo", 5)
+	verif.Assume(verif.Implies(S.Has(sms2fa.SessionSMSSecret), verif.And(S.Has(sms2fa.SessionSMSSentTo), f.sval(sms2fa.SessionSMSSentTo) == f.smsSentTo)))
 	// cookie jar: remember cookie arbitrary
 	f.w.Cookies.SetP(authboss.CookieRemember, verif.String("K_rm", 8), verif.Bool("has_rm"))
 }
